@@ -15,8 +15,10 @@ import time
 import vf
 from checks import queuefam as q
 
-SURFACES = ["admin-http-global", "admin-http-selector", "admin-http-scoped", "mcp-proxy-global", "mcp-proxy-scoped"]
-MANAGED = ["admin-http-selector", "admin-http-scoped", "mcp-proxy-scoped"]
+SURFACES = ["admin-http-global", "admin-http-selector", "admin-http-scoped", "mcp-proxy-global", "mcp-proxy-scoped", "mcp-direct"]
+MANAGED = ["admin-http-selector", "admin-http-scoped", "mcp-proxy-scoped", "mcp-direct"]   # configurations with managed routes
+UNMANAGED = ["admin-http-global", "mcp-proxy-global", "mcp-direct"]                        # ... without (mcp-direct: every third schedule)
+DIRECT = "mcp-direct"                                                                      # SQLite only
 BACKENDS = ["memory", "sqlite"]
 MARK = "L1/oper"
 
@@ -26,7 +28,8 @@ RULE_L1 = ("L1 (API surfaces): the same TLC-generated edge schedules (QueueGen o
            "unknown / duplicate / padded / blank / 1000 / 1001 ids, populations above the 100 and 1000 caps) executed by the L0 executor on a "
            "queue.Store decorator whose operator methods are real Admin API requests (global endpoints; application+endpoint_name selector; "
            "endpoint-scoped paths) or real MCP tool calls in admin-proxy mode (route selector; application+endpoint_name selector) against a "
-           "production-wired instance (app.VerifBoot) serving the dumped store object, memory and SQLite; validated by OperApiTrace = QueueTrace "
+           "production-wired instance (app.VerifBoot) serving the dumped store object, memory and SQLite, or real MCP tool calls in direct mode "
+           "(the tool opens the SQLite file the harness store object has open; fake clock through the mcp.sqlite_now seam); validated by OperApiTrace = QueueTrace "
            "(unchanged) + the API layer of OperApi.tla as an explicit step (a refused request must be one the layer may refuse - audit reason, "
            "id-list shape, limit spelling, state outside the operation's set, managed-route selector - and must change nothing; a passed request "
            "must not be one the layer must refuse - audit reason, managed-route selector -, its wire spelling must bind to the abstract "
@@ -50,9 +53,9 @@ def design_mc(ctx):
     return r
 
 
-def execute(ctx, sched_file, tag, spread, surfaces=None, backends=None, only=None, selftest=None, big_one=False):
+def execute(ctx, sched_file, tag, spread, surfaces=None, backends=None, only=None, selftest=None, big_one=False, shards=None):
     """Run hkv-oper on a schedule file; returns (trace files, summary)."""
-    shards = vf.NCPU if only is None else 1
+    shards = shards or (vf.NCPU if only is None else 1)
     out = os.path.join(ctx.shm, "oper-" + tag)
     args = ["run", "-sched", sched_file, "-out", out, "-shards", str(shards), "-scratch", ctx.shm,
             "-surfaces", ",".join(surfaces or SURFACES), "-backends", ",".join(backends or BACKENDS)]
@@ -80,7 +83,7 @@ def validate(ctx, files, name):
             os.environ["JAVA_TOOL_OPTIONS"] = env_before
 
 
-def run_chunked(ctx, sched_file, tag, spread, chunk, big_one=False):
+def run_chunked(ctx, sched_file, tag, spread, chunk, big_one=False, surfaces=None, backends=None, shards=None):
     """Execute + validate a schedule file in chunks of `chunk` schedules (bounds the size of a trace file: TLC holds a
     whole file in memory).  Returns (divergences, merged summary)."""
     lines = [ln for ln in open(sched_file) if ln.strip()]
@@ -90,7 +93,7 @@ def run_chunked(ctx, sched_file, tag, spread, chunk, big_one=False):
         if part != sched_file:
             with open(part, "w") as f:
                 f.writelines(lines[ci:ci + chunk])
-        files, info = execute(ctx, part, "%s-%d" % (tag, ci // chunk), spread=spread, big_one=big_one)
+        files, info = execute(ctx, part, "%s-%d" % (tag, ci // chunk), spread=spread, big_one=big_one, surfaces=surfaces, backends=backends, shards=shards)
         divs += divergences(validate(ctx, files, "tv-oper-%s-%d" % (tag, ci // chunk)))
         for f in files:
             os.remove(f)
@@ -228,10 +231,12 @@ def account(ctx, counters):
             ctx.count("api/%s/filter_target_excluded_scoped_form" % s, c.get("target_excluded_scoped|%s" % s, 0))
             need("target_excluded_scoped|%s" % s)
             need("refused|%s|selector" % s)
-            form = "selector" if s == "admin-http-selector" else "path"
+            form = "selector" if s in ("admin-http-selector", DIRECT) else "path"
             need("form|%s|%s|ok" % (s, form))
             need("form|%s|global|ok" % s)     # an unmanaged route next to managed ones
-        else:
+            ctx.count("api/%s/refused_actor_policy" % s, c.get("refused|%s|actor" % s, 0))
+            need("refused|%s|actor" % s)      # actor policy of scoped managed operations does not admit the actor
+        if s in UNMANAGED:
             for crit in CRIT_NO_RT:
                 need("crit|%s|%s" % (s, crit))
     if missing:
@@ -259,7 +264,7 @@ def l1_part(ctx):
         gkw, ncap = dict(ids=2, family=("operator", "filter", "lease"), horizon=0, maxep=1, maxins=2, pick="insertion", ticks=(10,), delays=(0,), ttls=(30,)), 1000
     else:
         # (the 3-id graph without clock steps: 82 k edge schedules in under a minute; the store-level part runs the one with ticks)
-        gkw, ncap = dict(ids=3, family=("operator", "filter", "lease"), horizon=0, maxep=1, maxins=3, pick="insertion", ticks=(10,), delays=(0,), ttls=(30,)), 24000
+        gkw, ncap = dict(ids=3, family=("operator", "filter", "lease"), horizon=0, maxep=1, maxins=3, pick="insertion", ticks=(10,), delays=(0,), ttls=(30,)), 16000
     scheds, edges, _ = q.gen_schedules(ctx, "operapi", cfg, depth=0, **gkw)
     if not scheds:
         raise vf.Infra("generator produced no schedules for the API part")
@@ -280,7 +285,7 @@ def l1_part(ctx):
     lap("L1 execute+TV gen (%d traces, %d events)" % (info["traces"], info["events"]))
 
     # (b) seeded driver schedules, each executed on EVERY surface x backend
-    n_mix, n_drv, n_big, ops = (14, 8, 2, 45) if ctx.quick else (400, 250, 12, 70)
+    n_mix, n_drv, n_big, ops = (14, 8, 2, 45) if ctx.quick else (300, 180, 10, 70)
     drv_file = os.path.join(ctx.scratch, "drv-operapi.ndjson")
     vf.tool("hkv-oper", ["drive", "-seed", str(ctx.seed), "-n", str(n_drv), "-ops", str(ops), "-mix", str(n_mix), "-big", str(n_big), "-sched", drv_file])
     sched_files.append(drv_file)
@@ -291,6 +296,18 @@ def l1_part(ctx):
     ctx.cov["schedules_executed"] += info["traces"]
     ctx.count("api/driver_schedules", n_mix + n_drv + n_big)
     lap("L1 execute+TV driver (%d traces, %d events)" % (info["traces"], info["events"]))
+    # (c) mcp-direct runs on SQLite only: a second set of driver schedules for it alone, so that it sees as many traces as
+    # the surfaces that run on two backends
+    drv2_file = os.path.join(ctx.scratch, "drv2-operapi.ndjson")
+    vf.tool("hkv-oper", ["drive", "-seed", str(ctx.seed + 1000), "-n", str(n_drv), "-ops", str(ops), "-mix", str(n_mix), "-big", "0", "-sched", drv2_file])
+    sched_files.append(drv2_file)
+    divs, info = run_chunked(ctx, drv2_file, "drv2", False, 1200, surfaces=[DIRECT], backends=["sqlite"], shards=4 if ctx.quick else None)
+    merge(counters, info)
+    all_divs += divs
+    ctx.cov["traces_validated_against_impl"] += info["traces"]
+    ctx.cov["schedules_executed"] += info["traces"]
+    ctx.count("api/driver_schedules_direct_only", n_mix + n_drv)
+    lap("L1 execute+TV driver, mcp-direct only (%d traces, %d events)" % (info["traces"], info["events"]))
     with open(drv_file) as f:
         s = json.loads(f.readline())
         s["ops"] = s["ops"][-8:]
@@ -305,10 +322,25 @@ def l1_part(ctx):
                 ctx.count("api/" + k.replace("|", "/"), v)
     lap("L1 triage + accounting")
     ctx.assumptions += [
-        "API part: surfaces covered = Admin HTTP API (global endpoints, application+endpoint_name selector, endpoint-scoped paths) and MCP tools in "
-        "admin-proxy mode (route selector and application+endpoint_name selector). NOT covered: MCP direct mode - there the tool opens a second "
-        "SQLiteStore on the database file with the wall clock (no clock seam) and cannot run on the memory backend, so next_run_at = now cannot "
-        "be compared with fake-clock ticks; its argument parsing is the same code as in proxy mode and the store it calls is checked at L0",
+        "API part: surfaces covered = Admin HTTP API (global endpoints, application+endpoint_name selector, endpoint-scoped paths), MCP tools in "
+        "admin-proxy mode (route selector and application+endpoint_name selector) on memory and SQLite, and MCP tools in DIRECT mode (mcp-direct, "
+        "SQLite only): the server is started with --db naming the same database file the harness SQLiteStore object has open and a "
+        "configuration with queue backend sqlite; every tool call opens its own SQLiteStore on that file (clock seam verifhook 'mcp.sqlite_now', "
+        "/repo 35ea3c1; the seam is one process-global function, so direct-mode tool calls of the shards of one process are serialised and the "
+        "published function reads the clock of the call in progress). messages_publish is not driven here (publish is C15 / C12; its direct mode "
+        "is covered by the McpPublish admission scenario)",
+        "mcp-direct, two store objects on one WAL file: (a) the per-call object has NO retention setting (openSQLiteStore passes none) and zeroed "
+        "throttle state, so it never prunes, while a listing on the harness object would run the configured prune first - this surface therefore "
+        "runs retention-free (prune interval 0, no queue / DLQ retention; delivered retention kept, depth limit and drop policy kept) and "
+        "QueueTrace's vol check (last prune / last sweep of the harness object unchanged by operator calls and listings) holds as for the other "
+        "surfaces; operator mutations and listings never sweep leases. (b) the harness object caches only the throttle instants, metrics and the "
+        "queueLikelyFull hint, which is re-validated against the queue_counters table before it refuses; dumps and every later direct operation "
+        "(enqueue under a depth limit, dequeue, lease operations) go through SQL and are validated against the post-state the tool left. (c) the "
+        "direct-mode policy checks (managed-route selector rule from the compiled configuration, actor policy of scoped managed operations, id "
+        "mutation policy context) are the same OperApi.tla refusal classes; a refusal must leave the file unchanged",
+        "API part: in every fifth schedule of a configuration with managed routes defaults.publish_policy actor_allow / actor_prefix does not "
+        "admit the harness's actor: scoped by-filter mutations MUST be refused (documented), by-id mutations MAY be (the layer refuses them when "
+        "they touch a managed route's message in a state the operation is defined for), everything refused changes nothing",
         "API part: by-id answers carry one count (changed); `matched` of the store response is filled with it. The DLQ listing does not carry "
         "state / next_run_at: completed from the store dump by id (those two field checks are vacuous on the API surfaces, checked at L0)",
         "API part: where the API layer legitimately differs from the store (request validation) it is modelled EXPLICITLY as a thin spec module, "
